@@ -972,6 +972,173 @@ def run_options(ctx, jc, days):
         os.unlink(path)
 
 
+
+# ---------------------------------------------------------------------------
+# chained limit sources: a first --limit TEXT combined with a later source of the
+# limit predicate (report.h 748-753: value = "(" + value + ")&(" + str + ")")
+
+
+def paren(t):
+    """(T) unless the rendering already is one parenthesised group."""
+    return t if t.startswith("(") else "(" + t + ")"
+
+
+def bare(p, t):
+    """a predicate written without its outer parentheses (`account =~ /x/`, `cleared`)."""
+    return t[1:-1] if p["k"] in ("match", "cmp") else t
+
+
+def first_forms(P, Q, tx):
+    """(name, --limit TEXT, predicate it denotes)"""
+    tP, tQ = paren(tx[key(P)]), paren(tx[key(Q)])
+    return [("(P)|(Q)", tP + "|" + tQ, OR(P, Q)), ("(P)&(Q)", tP + "&" + tQ, AND(P, Q)),
+            ("P|Q", bare(P, tx[key(P)]) + "|" + bare(Q, tx[key(Q)]), OR(P, Q)), ("(P)", tP, P),
+            ("((P)|(Q))", "(" + tP + "|" + tQ + ")", OR(P, Q))]
+
+
+def later_sources(R, rargs, tx, day):
+    """(name, command-line arguments, predicate it denotes)"""
+    return [("--begin", ["--begin", date_arg(day)], CMPD("ge", day)), ("--end", ["--end", date_arg(day)], CMPD("lt", day)),
+            ("--real", ["--real"], FL("real")), ("--cleared", ["--cleared"], FL("cleared")),
+            ("--uncleared", ["--uncleared"], OR(FL("uncleared"), FL("pending"))),
+            ("--limit R", ["--limit", tx[key(R)]], R), ("query terms", list(rargs), R)]
+
+
+def simple_query_pred(rng, facts):
+    """a predicate with an obvious command-line spelling: (pred, args)"""
+    r = rng.random()
+    a = rng.choice(facts["acct"])
+    if r < 0.4:
+        return M("account", a), [a]
+    if r < 0.6:
+        pay = rng.choice(facts["payee"])
+        return M("payee", pay), ["@" + pay]
+    if r < 0.8:
+        return NOT(M("account", a)), ["not", a]
+    b = rng.choice(facts["acct"])
+    return OR(M("account", a), M("account", b)), [a, b]
+
+
+def chain_law(first, later, both):
+    (rf, ef), (rl, el), (rb, eb) = first, later, both
+    if ef or el:
+        return None
+    if eb:
+        return "the combined run fails (%s) although both single-source runs succeed" % eb
+    want = ms(rf) & ms(rl)
+    if ms(rb) != want:
+        return "rows != rows(first) ∩ rows(later): missing %s, extra %s" % (sorted(want - ms(rb))[:4], sorted(ms(rb) - want)[:4])
+    return None
+
+
+def run_chain(ctx, j, text, mast, combos, tx):
+    """combos: list of (P, Q, R, rargs, day, [names of first forms], [names of later sources])."""
+    path = jgen.write_tmp(text)
+    try:
+        jobs = {}
+        plan = []
+        for ci, (P, Q, R, rargs, day, fsel, lsel) in enumerate(combos):
+            jobs[("P", ci)] = ["--limit", tx[key(P)]]
+            for fn, ftext, fpred in first_forms(P, Q, tx):
+                if fn not in fsel:
+                    continue
+                jobs[("first", ci, fn)] = ["--limit", ftext]
+                for ln, largs, lpred in later_sources(R, rargs, tx, day):
+                    if ln not in lsel:
+                        continue
+                    jobs[("later", ci, ln)] = largs
+                    jobs[("both", ci, fn, ln, 0)] = ["--limit", ftext] + largs
+                    jobs[("both", ci, fn, ln, 1)] = largs + ["--limit", ftext]
+                    plan.append((ci, fn, ftext, fpred, ln, largs, lpred))
+        keys = list(jobs)
+        res = dict(zip(keys, vflib.pmap(lambda k: reg(path, jobs[k]), keys)))
+        mouts = vflib.driver_run(["query.filter\t" + json.dumps({"journal": mast, "preds": [AND(fp, lp)]}) for _, _, _, fp, _, _, lp in plan])
+        for (ci, fn, ftext, fpred, ln, largs, lpred), mo in zip(plan, mouts):
+            first, later, rP = res[("first", ci, fn)], res[("later", ci, ln)], res[("P", ci)]
+            discr = rP[1] is None and later[1] is None and bool(ms(rP[0]) - ms(later[0]))
+            for order in (0, 1):
+                ctx.count()
+                both = res[("both", ci, fn, ln, order)]
+                args = jobs[("both", ci, fn, ln, order)]
+                ctx.feature("chain:first " + fn)
+                ctx.feature("chain:later " + ln)
+                if discr:
+                    ctx.feature("chain:some posting matches P but fails the later source")
+                    ctx.nontrivial(("chain", ftext, tuple(largs), order, zlib.crc32(text.encode())))
+                # tie: the model's and-combination
+                if mo.startswith("ok\t"):
+                    mr = model_rows(mo[3:])
+                    if mr[1] is None and first[1] is None and later[1] is None:
+                        if [rowkey(r) for r in both[0]] != mr[0] or both[1] is not None:
+                            ctx.tie_broken("corr:query.filter:chained", "model and ledger disagree on %s\nmodel %s\nledger %s %s\njournal:\n%s" %
+                                           (args, mr[0][:10], [rowkey(r) for r in both[0]][:10], both[1], text[:1500]))
+                        else:
+                            ctx.traces_validated += 1
+                else:
+                    ctx.tie_broken("corr:query.filter:chained", "driver: %s" % mo[:200])
+                # oracle on ledger's own three runs
+                why = chain_law(first, later, both)
+                if why:
+                    fp = "C07:chained-limits"
+                    if any(v[0] == fp for v in ctx.violations) or any(h[0] == fp for h in ctx.known_hits):
+                        continue
+                    sel = {"first": jobs[("first", ci, fn)], "later": largs, "both": args}
+
+                    def fails(jj, sel=sel):
+                        def go(path2, text2):
+                            return chain_law(reg(path2, sel["first"]), reg(path2, sel["later"]), reg(path2, sel["both"])) is not None
+                        return with_journal(jj, go)
+                    small = text
+                    if j is not None and ctx.shrink_budget > 0:
+                        ctx.shrink_budget -= 1
+                        try:
+                            small = render_journal(shrink_journal(j, fails))
+                        except Exception:
+                            pass
+                    ctx.violation(fp, "a first limit %s combined with %s is not the intersection of the two: reg %s: %s" %
+                                  (ftext, " ".join(largs), " ".join(args), why),
+                                  {"journal": small, "law": fp, "first_form": fn, "later_source": ln,
+                                   "runs": {n: ["reg", "--empty", "--format", FMT] + a for n, a in sel.items()}})
+    finally:
+        os.unlink(path)
+
+
+def boundary_chain_journal():
+    """three transactions on which `Assets` postings exist on both sides of every later source."""
+    E = lambda q: jgen.amt(Fraction(q), COMMS[1])
+    A = lambda q: jgen.amt(Fraction(q), COMMS[2])
+
+    def post(acct, a, kind="real", state=0):
+        return {"account": acct, "kind": kind, "state": state, "amount": a, "cost": None, "assert": None, "note": "",
+                "note_lines": [], "tags": []}
+
+    def xact(d, payee, state, code, posts):
+        return {"date": d, "aux": None, "state": state, "code": code, "payee": payee, "note": "", "note_lines": [], "tags": [],
+                "posts": posts}
+    d = jgen.day_of(2020, 2, 1)
+    return {"xacts": [
+        xact(d - 1, "shop", 1, "c1", [post("Assets:Cash", E(-10)), post("Expenses:Food", E(10))]),
+        xact(d, "work", 0, "", [post("Assets:Bank", E(100)), post("Expenses:Rent", A(5), "virtual", 2), post("Income:Salary", E(-100))]),
+        xact(d + 1, "shop", 2, "c2", [post("Expenses:Food", E("7/2")), post("Assets:Cash", E("-7/2"), "bvirtual"),
+                                      post("Assets:Cash", E(0), "bvirtual", 1)])]}, d
+
+
+ALL_FIRST = ["(P)|(Q)", "(P)&(Q)", "P|Q", "(P)", "((P)|(Q))"]
+ALL_LATER = ["--begin", "--end", "--real", "--cleared", "--uncleared", "--limit R", "query terms"]
+
+
+def run_chain_boundary(ctx):
+    j, d = boundary_chain_journal()
+    text = render_journal(j)
+    mast = model_ast(j)
+    P, Q = M("account", "Assets"), M("payee", "work")
+    combos = [(P, Q, M("account", "Bank"), ["Bank"], d, ALL_FIRST, ALL_LATER),
+              (P, FL("pending"), NOT(M("account", "Cash")), ["not", "Cash"], d + 1, ALL_FIRST, ALL_LATER),
+              (FL("cleared"), M("account", "Rent"), M("payee", "shop"), ["@shop"], d, ALL_FIRST, ALL_LATER)]
+    tx = driver_texts([x for c in combos for x in c[:3]])
+    run_chain(ctx, j, text, mast, combos, tx)
+
+
 # ---------------------------------------------------------------------------
 # AST level: `ledger query ARGS` vs Query.parseAll
 
@@ -1093,7 +1260,9 @@ def run(tier, seed):
                 "amounts) x predicate pairs to depth 4 over account/payee/code/note matches, tags, amount and date comparisons "
                 "(boundary operands taken from the journal), state/kind flags, and/or/not, plus ill-typed comparisons; each run under "
                 "--limit P, not P, Q, not Q, P&Q, P|Q, not not P, --limit twice, --only, --display and as command-line query terms; "
-                "--begin/--end at every transaction date and its neighbours; `ledger query` on canonical and variant renderings of "
+                "--begin/--end at every transaction date and its neighbours; chained limit sources (a first --limit written as (P)|(Q), "
+                "(P)&(Q), P|Q, (P), ((P)|(Q)) x a later --begin/--end/--real/--cleared/--uncleared/--limit/query terms, both orders, "
+                "on a fixed boundary journal and on every generated one); `ledger query` on canonical and variant renderings of "
                 "query trees and on a malformed token soup. Non-trivial = the predicate selects a proper non-empty subset of the "
                 "postings (distinct by predicate and journal) or a query tree of depth >= 1 parsed alike (distinct by arguments)")
     ctx.assumptions = ["boost::regex on letters/digits/blank/colon patterns is case-insensitive substring search",
@@ -1119,6 +1288,8 @@ def run(tier, seed):
                     replay(json.load(open(os.path.join(cdir, fn))), ctx=ctx)
                 except Exception as e:
                     ctx.feature("corpus-error")
+    # boundary stream: chained limit sources on a fixed journal, every run
+    run_chain_boundary(ctx)
     # AST level
     run_ast_level(ctx, 260 if quick else 8000, 260 if quick else 10000, maxd)
     # journal level
@@ -1164,6 +1335,23 @@ def run(tier, seed):
         if quick:
             days = days[:6] + days[-2:]
         run_options(ctx, jc, sorted(set(days)))
+        # chained limit sources on this journal
+        combos = []
+        nco = 2 if quick else 4
+        for _ in range(nco):
+            P, Q = gen_leaf(rng, j, facts), gen_leaf(rng, j, facts)
+            if rng.random() < 0.5:
+                P = M("account", rng.choice(facts["acct"][:6] + ["a", "e"]))
+            R, rargs = simple_query_pred(rng, facts)
+            day = rng.choice(facts["dates"][:-2])
+            full = (not quick) and rng.random() < 0.25
+            fsel = ALL_FIRST if full else rng.sample(ALL_FIRST, 2) + ["(P)|(Q)"]
+            lsel = ALL_LATER if full else rng.sample(ALL_LATER, 3)
+            if all(l["k"] != "cmp" or ("amt" in l) == (l["s"] == "amount") for l in [P, Q]):
+                combos.append((P, Q, R, rargs, day, fsel, lsel))
+        if combos:
+            tx = driver_texts([x for c in combos for x in c[:3]])
+            run_chain(ctx, j, jc.text, jc.mast, combos, tx)
     if ctx.mism:
         ctx.extra_cov["mismatches"] = ctx.mism[:6]
     return ctx.finish()
@@ -1187,6 +1375,9 @@ def replay(obj, ctx=None):
             iso = (EPOCH + datetime.timedelta(days=r["day"])).isoformat()
             bad = bool((b & e) or b + e != a or any(x["date"] < iso for x in R["begin"][0]) or any(x["date"] >= iso for x in R["end"][0]))
             fails = [("C07:begin-end", "split at %s" % iso)] if bad else []
+        elif r.get("law") == "C07:chained-limits":
+            why = chain_law(R["first"], R["later"], R["both"])
+            fails = [(r["law"], why)] if why else []
         elif str(r.get("law", "")).startswith("C07:period-"):
             (n1, r1), (n2, r2) = [(n, v) for n, v in R.items() if n != "all"][:2]
             fails = [(r["law"], "rows differ")] if (r1[1] != r2[1] or [rowkey(x) for x in r1[0]] != [rowkey(x) for x in r2[0]]) else []
